@@ -109,7 +109,7 @@ class SvsInst:
             return
         try:
             remote_sv_pkt = StateVecWrapper.parse(name[-2]).val
-        except (enc.DecodeError, IndexError) as e:
+        except (enc.DecodeError, IndexError, ValueError) as e:
             self.logger.error('Unable to decode state vector [%s]: %s', enc.Name.to_str(name), e)
             return
 
